@@ -1,16 +1,16 @@
 SPECIFICATION Spec
 CONSTANTS
-  Part = "rewind"
+  Parts = {"rewind"}
   Seeds = {"s1", "s2", "s3"}
-  Comps = {"c0", "c1", "nmax", "h0", "nr"}
-  HardComps = {"h0"}
-  Amts = {"a0", "a1", "a63", "amax", "arand"}
+  Comps = {"c0", "c1", "nmax", "h0"}
+  HardComps = {"c0", "c1", "nmax", "h0"}
+  Amts = {"a0", "a1", "a63", "amax"}
   MaxDepth = 4
   VKMaxDepth = 1
   MaxOuts = 1
   Fmts = {"new", "legacy", "b0", "dp5", "dp255", "dpm1"}
   PerGroup = 2
-  CraftDepths = {}
+  CraftDepths = {0, 1, 2, 3, 4}
   KeyNames = {"d1"}
   MaxTerms = 1
   MaxIO = 1
